@@ -563,7 +563,10 @@ def identities(ctx):
             res.fail(ctx.finding('IDENTITIES', m, m.node,
                                  f'{mname}() returns {got}, not its own term '
                                  f'function', construct=f'{mname} accessor'))
-    # longitudinal = -transverse[-1]/ua[-1]
+    # longitudinal = -transverse / u'_K with u'_K the marginal slope IN IMAGE
+    # SPACE, i.e. the slope arriving at the image surface (record [-2]; the
+    # record [-1] is the slope after the image surface refracted into its
+    # own post medium - same convention as f2, F2, XPL, XPD, image_solve)
     for lname, tname in (('SC', 'TSC'), ('AC', 'TAC'), ('PC', 'TPC'),
                          ('LchC', 'TAchC')):
         m = c.methods.get(lname)
@@ -580,7 +583,7 @@ def identities(ctx):
                 if len(ats) == 2 and any(a.startswith(tname + '[') for a in ats):
                     tr = [a for a in ats if a.startswith(tname + '[')][0]
                     un = [a for a in ats if a != tr][0]
-                    if rat_eq(v, -A(tr) / A(un)) and un.endswith('[-1]') and \
+                    if rat_eq(v, -A(tr) / A(un)) and un.endswith('[-2]') and \
                             un.startswith('self.') and tr == f'{tname}[-1]' and \
                             kinds.get(un[5:-4]) == 'space':
                         ok = True
@@ -680,7 +683,7 @@ def identities(ctx):
         res.fail(ctx.finding('IDENTITIES', to, r[0] if r else to.node,
                              f'third_order returns {got}',
                              construct='third_order return order'))
-    # third_order longitudinal lists: X.append(-T[k-1] / ua[-1])
+    # third_order longitudinal lists: X.append(-T[k-1] / ua[-2])
     for n in ast.walk(to.node):
         if isinstance(n, ast.Call) and call_name(n) == 'append' and n.args and \
                 isinstance(n.args[0], ast.BinOp):
@@ -696,7 +699,7 @@ def identities(ctx):
                 un = [a for a in ats if a not in tr]
                 if len(tr) == 1 and len(un) == 1 and tr[0] == f'{tmap[lst]}[k-1]'\
                         and rat_eq(v, -A(tr[0]) / A(un[0])) and \
-                        un[0].endswith('[-1]'):
+                        un[0].endswith('[-2]'):
                     res.ok(f'third_order: {lst}[k-1] = -{tmap[lst]}[k-1]/u_k\'')
                 else:
                     res.fail(ctx.finding(
